@@ -520,6 +520,14 @@ pub fn scenarios(prop: &str, tier: &str) -> Vec<Arc<dyn Scenario>> {
             a.flush_sealed = false;
             a.rotate = false;
             a.wms = vec![Wm::Zero, Wm::Tight];
+            // one table per write: an entry the filter turns into a tombstone must keep hiding
+            // older versions that live in tables the compaction does not touch
+            a.put_f = true;
+            let c17_seeds: Vec<Vec<Op>> = vec![
+                vec![],
+                vec![Op::MultiPut { ks: vec![0, 1] }, Op::Flush { w: Wm::Zero }],
+                vec![Op::MultiPut { ks: vec![0, 1] }, Op::Flush { w: Wm::Zero }, Op::Leveled { w: Wm::Zero, p: 0 }],
+            ];
             let mut maps = vec![];
             for va in ALL_VERDICTS {
                 for vb in ALL_VERDICTS {
@@ -531,14 +539,14 @@ pub fn scenarios(prop: &str, tier: &str) -> Vec<Arc<dyn Scenario>> {
                 let mut c = TreeCfg::small(keys_ab());
                 c.filter_verdicts = Some(m.clone());
                 let bd = if quick { bs(2, 2, 1, 0, 0) } else { bs(3, 2, 1, 1, 0) };
-                v.push(std(&format!("C17-std-{:?}-{:?}", m[0], m[1]), c.clone(), a.clone(), bd, seeds_upto(1), OracleKind::C17));
+                v.push(std(&format!("C17-std-{:?}-{:?}", m[0], m[1]), c.clone(), a.clone(), bd, c17_seeds.clone(), OracleKind::C17));
                 if !quick || i % 2 == 0 {
                     let mut cb = c.clone().with_blob(16);
                     cb.filter_verdicts = Some(m.clone());
                     let mut ab = a.clone();
                     ab.put_big = true;
                     let bd = if quick { bs(2, 1, 1, 0, 0) } else { bs(2, 2, 1, 1, 0) };
-                    v.push(std(&format!("C17-blob-{:?}-{:?}", m[0], m[1]), cb, ab, bd, seeds_upto(1), OracleKind::C17));
+                    v.push(std(&format!("C17-blob-{:?}-{:?}", m[0], m[1]), cb, ab, bd, c17_seeds.clone(), OracleKind::C17));
                 }
             }
         }
